@@ -79,3 +79,68 @@ def check(ctx, P, funcs, rule="R-MEMOKEY"):
                    "the branch that fills `%s` reads the parameter(s) %s, but the guard `!%s` does not: the value computed "
                    "for the first argument is returned for every later one" % (sorted(stored & rets)[0], used, guard))
     return n_cand
+
+
+LOOPS = ("ForStmt", "WhileStmt", "DoStmt", "CXXForRangeStmt")
+
+
+def check_loopmemo(ctx, P, funcs, rule="R-LOOPMEMO"):
+    """R-LOOPMEMO: the local-variable form of the same defect.  A bool flag declared *outside* a loop, tested with
+    `if (!flag)` inside it, set to true in that branch - where the branch computes from variables that are declared
+    inside the loop (they change with every iteration) - and never reset inside the loop: the result computed for the
+    first element that reaches the branch is reused for all later elements, so the outcome depends on the iteration
+    order (hash-map order in the DWARF reader's resolve_declaration_only_classes)."""
+    n_cand = 0
+    for f in sorted(funcs, key=lambda x: (x.file, x.l0)):
+        if f.dep:
+            continue
+        decl_node = {}
+        for n in f.nodes():
+            if n["k"] == "VarDecl":
+                decl_node[n.get("d")] = n
+        for n in f.nodes():
+            if n["k"] != "IfStmt" or n["c"][1] is None:
+                continue
+            c = strip_casts(n["c"][0])
+            if c is None or c["k"] != "UnaryOperator" or c.get("op") != "!":
+                continue
+            v = strip_casts(c["c"][0])
+            if v is None or v["k"] != "DeclRefExpr" or (f.decl(v) or {}).get("st") != "local":
+                continue
+            t = f.type(v)
+            if not t or t["c"] != "bool":
+                continue
+            flag = v.get("d")
+            dn = decl_node.get(flag)
+            loops = [a for a in f.ancestors(n) if a["k"] in LOOPS]
+            if dn is None or not loops:
+                continue
+            outer = [L for L in loops if not any(x["i"] == dn["i"] for x in walk(L))]
+            if not outer:
+                continue
+            L = outer[-1]
+            then = n["c"][1]
+
+            def assigns(root, val):
+                return any(x["k"] == "BinaryOperator" and x.get("op") == "=" and
+                           (strip_casts(x["c"][0]) or {}).get("d") == flag and
+                           (strip_casts(x["c"][1]) or {}).get("k") == "CXXBoolLiteralExpr" and
+                           (strip_casts(x["c"][1]) or {}).get("v") == val for x in walk(root))
+            if not assigns(then, 1):
+                continue
+            n_cand += 1
+            ctx.analysed(f)
+            inner = {x.get("d") for x in walk(L) if x["k"] == "VarDecl"}
+            if L["k"] == "CXXForRangeStmt" and L.get("d"):
+                inner.add(L["d"])
+            used = sorted({(f.decl(x) or {}).get("n") for x in walk(then) if x["k"] == "DeclRefExpr" and x.get("d") in inner})
+            ok = not used or assigns(L, 0)
+            fname = (f.decl(v) or {}).get("n")
+            ctx.ob(rule, "%s: the value computed under `!%s` inside the loop does not outlive its iteration" % (short(f), fname),
+                   ok, f.loc(n),
+                   "the branch reads no per-iteration variable" if not used else
+                   "the flag is reset inside the loop" if ok else
+                   "`%s` is declared outside the loop, set in the branch and never reset, while the branch computes from %s, "
+                   "which change with every iteration: the verdict of the first element is reused for the others and the "
+                   "result depends on the iteration order" % (fname, used[:4]))
+    return n_cand
